@@ -345,6 +345,30 @@ pub fn enumerate_base(seed: u64, k: usize, pairs: bool) -> Outcome {
             }
         }
     }
+    // an address-in-use failure (the probe is re-issued, its first slot skipped) followed in the
+    // same round by a transient failure of the re-issued attempt itself or of the next probe:
+    // the slot bookkeeping after a skipped sequence number
+    for (op, transient) in [(Op::Bind, libc::EADDRNOTAVAIL), (Op::Connect, libc::ENETUNREACH)] {
+        if classify(op, libc::EADDRINUSE, &b.tcfg) != Class::Reissue || classify(op, transient, &b.tcfg) != Class::Transient {
+            continue;
+        }
+        let occurrences = ops.iter().filter(|o| **o == op).count();
+        for n in 0..occurrences {
+            for gap in [1usize, 2, 3] {
+                let fs = vec![(op, n, libc::EADDRINUSE), (op, n + gap, transient)];
+                let replay = json!({"how": format!("vcheck C09 --seed {seed} --only {k}"), "scenario": k, "cell": site, "faults": {"op": format!("{op:?}"), "occurrence": n, "errno": libc::EADDRINUSE, "then_occurrence": n + gap, "then_errno": transient}, "config": format!("{:?}", b.tcfg)});
+                match run_once_ops(&b, &[], &fs) {
+                    Ok((world, run)) => {
+                        judge(&b, &[(0, libc::EADDRINUSE)], &world, &run, &mut o, &replay);
+                        o.count("reissue_then_transient_runs", 1);
+                    }
+                    Err(p) if p.in_repo() => o.violate("no_panic", format!("{site}|{op:?}:reissue-then-transient|{}", p.site()), format!("panic {}:{} {}", p.file, p.line, p.message), replay.clone()),
+                    Err(p) => o.harness_error = Some(format!("harness panic {}:{} {}", p.file, p.line, p.message)),
+                }
+                runs += 1;
+            }
+        }
+    }
     o.count("faulted_runs", runs);
     o.count("socket_calls_in_baseline", n_calls as u64);
     o.nontrivial = Some(format!("{site}#{}", k));
@@ -358,7 +382,27 @@ pub fn random_faults(seed: u64, k: usize) -> Outcome {
     let mut b = base_config(seed ^ 0xB16, k, true);
     let mut r = Prng::new(seed ^ (k as u64) << 20 ^ 0xFA17);
     let site = b.cell.name();
-    match r.below(6) {
+    match r.below(7) {
+        6 if b.cell.protocol == Protocol::Tcp => {
+            // TCP over a network that withholds everything, with a connect timeout far longer
+            // than the rounds: hundreds of connection attempts stay pending at once
+            for h in &mut b.wcfg.topo.hops {
+                h.behaviour = crate::world::Behaviour::Silent;
+            }
+            b.wcfg.topo.target.behaviour = crate::world::Behaviour::Silent;
+            b.wcfg.topo.tcp = TcpMode::Silent;
+            b.tcfg.max_ttl = r.range(200, 254) as u8;
+            b.tcfg.max_inflight = 255;
+            b.tcfg.tcp_connect_timeout = ms(10_000);
+            // (one probe goes out per loop iteration, i.e. per read timeout: rounds long enough
+            // for a couple of hundred of them)
+            b.tcfg.read_timeout = ms(1);
+            b.tcfg.min_round = ms(400);
+            b.tcfg.max_round = ms(400);
+            b.rounds = r.range(3, 5) as usize;
+            b.tcfg.max_rounds = Some(b.rounds);
+            o.count("tcp_backlog_runs", 1);
+        }
         5 => {
             // a network that also returns datagrams which cannot be parsed: they answer no probe
             // and are not socket errors, the run must go on to its n rounds and return success
@@ -448,7 +492,7 @@ pub fn random_faults(seed: u64, k: usize) -> Outcome {
 
 pub fn run(tier: Tier, seed: u64, only: Option<String>) -> i32 {
     let mut rep = Report::new("C09", "fault_enumeration", tier, seed);
-    rep.rule = "base configuration = protocol x family x privilege with max-ttl <= 4, <= 3 rounds, path length <= 3; for each base EVERY socket call of the fault-free run (setup included) is failed once with every errno that call can plausibly return (thorough: plus a second later fault for every non-fatal first fault); then random fault sequences, silent, duplicate-flooding and malformed-datagram networks on larger configurations with 2..100 rounds; distinct by (base configuration); non-trivial = the base produced at least one faulted run".into();
+    rep.rule = "base configuration = protocol x family x privilege with max-ttl <= 4, <= 3 rounds, path length <= 3; for each base EVERY socket call of the fault-free run (setup included) is failed once with every errno that call can plausibly return (thorough: plus a second later fault for every non-fatal first fault); then random fault sequences, silent, duplicate-flooding and malformed-datagram networks and TCP backlogs (hundreds of pending connection attempts) on larger configurations with 2..100 rounds; distinct by (base configuration); non-trivial = the base produced at least one faulted run".into();
     rep.assumptions = vec![
         "which errno kinds are 'transient' (probe marked failed) is taken from the documented mapping in net/ipv4.rs (host/net unreachable, invalid input for ICMP, address not available at bind, net unreachable at connect); everything else except EAGAIN on read and errors of the zero-timeout writability poll is fatal".into(),
         "a datagram that cannot be parsed is a response the network returns, not a socket error: one random scenario in six runs over a network that also returns truncated quotations, ICMP messages shorter than their header and mutated / random datagrams, and must still publish its n rounds and return success (clause malformed_response_does_not_end_the_run)".into(),
